@@ -353,6 +353,23 @@ def c16(tier, seed, t0):
                      "only files analysed to a verdict in both configurations are compared (the property's restriction)"])
 
 
+@register("C02")
+def c02(tier, seed, t0):
+    from harness import enforce as H, violations as V
+    n = int(os.environ.get("VERIF_N", 0)) or (10 if tier == "quick" else 120)
+    res = R.run_pool(H.HNAME, H.chunks(tier, n), 170 if tier == "quick" else 2700, seed, tier,
+                     extra=dict(sample_rate=0.15 if tier == "quick" else 0.03, chunk_time=20 if tier == "quick" else 60))
+    agg = R.merge(res)
+    bounds = dict(program_instances=n, operators={k: sorted(v[1]) for k, v in sorted(V.OPS.items())},
+                  sites="<= 4 sites per operator and program, spread over the file; the site is a solver-chosen index (one class per site)",
+                  symbolic="every identifier / macro / include-path slot (first letter avoiding l/u/L/U)",
+                  outside="two simultaneous violations; operators of DESIGN 4.2 not implemented here: 09, 15-17, 23/34-36 (C03), 25, 29, 39, 42, 54, "
+                          "62, 63, 65, 71, 73, 75, 76, 78-80; violations of rules the tool does not enforce at all")
+    return R.report("C02", H.HNAME, tier, seed, agg, t0, bounds, functions=PIPE_FUNCS,
+                    assumptions=["expected code per operator: DESIGN.md 4.2 catalogue, calibrated on the pinned tool",
+                                 "internal exceptions on an edited file are C05's subject and not counted here"])
+
+
 def main():
     ap = argparse.ArgumentParser()
     ap.add_argument("prop")
